@@ -32,6 +32,30 @@ LENS = {
 }
 
 
+# (datatype, concrete prefix, length of the symbolic tail): inputs far beyond the per-type length bounds
+LONG = [
+    ('ipaddr-or-hostname', '0000:0000:0000:0000:0000:ffff:10.20.30.', 3),       # 40-42 characters, IPv6 with a quad tail
+    ('ipaddr-or-hostname', '2001:0DB8:0000:0000:0000:FFFF:192.168.100.2', 2),
+    ('ipaddr-or-hostname', '0000:0000:0000:0000:0000:0000:0000:00', 2),          # 39 characters of pure hex groups
+    ('ipaddr-or-hostname', '255.255.255.2', 2),
+    ('ipaddr-or-hostname', 'a-very-long.host_name.example.or', 2),
+    ('timedelta', '999999999d 2', 2),          # every part fits, the total may not
+    ('timedelta', '142857142w 6d 14', 3),
+    ('timedelta', '-999999999d -', 2),
+    ('timedelta', '4w 2d 7h 12m 0.0000', 2),
+    ('float', '1797693134862315', 2),
+    ('float', '-0.0000000000000000000000', 3),
+    ('byte-size', '10737418', 3), ('time-interval', '123456789', 2), ('port-number', '655', 2), ('port-number', '0000000655', 2),
+    ('integer', '-12345678901234567890', 2),
+    ('inet-address', 'some.host.example.org:80', 2), ('inet-address', '[2001:db8::1]:8', 2),
+    ('inet-binding-address', 'some.host.example.org', 2), ('socket-address', '/var/run/some/socke', 2),
+    ('socket-address', '[fe80::1]:80', 1),
+    ('basic-key', 'a-rather-long.key_nam', 2), ('identifier', 'a_rather_long_identifie', 2),
+    ('dotted-name', 'pkg.sub_pkg.module.nam', 2), ('dotted-suffix', '.sub_pkg.module.nam', 2),
+    ('boolean', 'fals', 1), ('boolean', 'tru', 2), ('string-list', 'one two  thre', 2),
+]
+
+
 def _call(f, x):
     """call a converter the way instrumented ZConfig code would (builtins such as `str` as a
     datatype must see the symbolic-aware helper, not the C implementation)"""
@@ -56,7 +80,8 @@ class C09(Harness):
              '(vf.oracles.dtspec.is_ipv6), cross-checked against the C function on every '
              'replayed witness',)
     assumptions = (
-        'per-type length bounds (see bounds); longer strings are outside the bounded claim; the '
+        'per-type length bounds (see bounds); longer strings are outside the bounded claim - except the LONG '
+        'units (a concrete prefix of 10-40 characters followed by 1-3 symbolic characters) - and the '
         'regex-based types additionally have an unbounded language-equality proof (E2)',
         'float and timedelta: float() is modelled as the EXACT rational value of the decimal literal and '
         'datetime.timedelta as exact rational arithmetic with CPython\'s NaN / infinity / range errors; binary '
@@ -128,6 +153,11 @@ class C09(Harness):
                 if a != b:
                     for L in ((1, 2, 3) if tier == 'quick' else (1, 2, 3, 4)):
                         us.append({'dt': b, 'len': L, 'first': a})
+        # long inputs: a concrete prefix (what makes the input long) followed by a short symbolic tail
+        for dt, prefix, n in LONG:
+            if tier == 'quick' and n > 2:
+                n = 2
+            us.append({'dt': dt, 'prefix': prefix, 'len': n})
         return us
 
     def inputs(self, eng, unit):
@@ -135,6 +165,10 @@ class C09(Harness):
         if unit['dt'] == 'registry-name':
             pred = _no_dot
         return {'s': self.sym_str(eng, 's', unit['len'], pred)}
+
+    @staticmethod
+    def _input(unit, inp):
+        return unit.get('prefix', '') + inp['s']
 
     def preflight(self, tier):
         from .. import e2
@@ -144,7 +178,7 @@ class C09(Harness):
     def observe(self, unit, inp):
         from ZConfig import datatypes
         from .. import instr
-        s = inp['s']
+        s = self._input(unit, inp)
         dt = unit['dt']
         if not isinstance(s, str):
             def stub(af, x):
@@ -202,7 +236,7 @@ class C09(Harness):
 
     # ---- oracle
     def expect(self, unit, inp, real):
-        s = inp['s']
+        s = self._input(unit, inp)
         dt = unit['dt']
         try:
             if dt == 'registry-name':
@@ -242,7 +276,7 @@ class C09(Harness):
         return bool(inp['s'])
 
     def finding(self, unit, inp, real, exp):
-        s = inp['s']
+        s = self._input(unit, inp)
         if unit['dt'] == 'ipaddr-or-hostname':
             if ':' in s and s[:1].isalpha() and real[0] == 'ValueError' and exp[0] == 'ok':
                 return 'F1'
